@@ -368,6 +368,10 @@ impl<'a> Interpreter<'a> {
                                         name: ident.clone(),
                                     }),
                                     Err(_) => {
+                                        // a method of that name may be bound at run time
+                                        if self.is_compile_time() {
+                                            return Err(CelError::attribute("obj", ident.as_str()));
+                                        }
                                         stack.push(
                                             CelValue::from_err(CelError::attribute(
                                                 "obj",
@@ -404,6 +408,10 @@ impl<'a> Interpreter<'a> {
                                             name: ident.clone(),
                                         });
                                     } else {
+                                        // a method of that name may be bound at run time
+                                        if self.is_compile_time() {
+                                            return Err(CelError::attribute("obj", ident.as_str()));
+                                        }
                                         stack.push(
                                             CelValue::from_err(CelError::attribute(
                                                 "obj",
@@ -477,9 +485,18 @@ impl<'a> Interpreter<'a> {
                                         let arg_values = self.resolve_args(args)?;
                                         stack.push_val(construct_type(type_name, arg_values));
                                     } else {
-                                        stack.push_val(CelValue::from_err(CelError::runtime(
-                                            &format!("{} is not callable", func_name),
-                                        )));
+                                        let not_callable = CelError::runtime(&format!(
+                                            "{} is not callable",
+                                            func_name
+                                        ));
+                                        // The function or macro may be bound when the
+                                        // program runs (has, coalesce, user functions):
+                                        // while folding constants this is as fatal as an
+                                        // unbound variable.
+                                        if self.is_compile_time() {
+                                            return Err(not_callable);
+                                        }
+                                        stack.push_val(CelValue::from_err(not_callable));
                                     }
                                 }
                                 CelValue::Type(type_name) => {
@@ -558,11 +575,12 @@ impl<'a> Interpreter<'a> {
         let res = macro_(self, this.clone(), &v);
 
         // A macro hands the failure of its body back as an error value. While
-        // the compiler folds constants an unbound variable must stay fatal
-        // (see InterpStack::pop), or `match` and `||` around the macro could
-        // absorb it and the surrounding call would be folded regardless.
+        // the compiler folds constants such a failure (an unbound variable, a
+        // function that is only bound at run time) must stay fatal, or `match`
+        // and `||` around the macro could absorb it and the surrounding call
+        // would be folded regardless.
         if self.is_compile_time() {
-            if let CelValue::Err(err @ CelError::Binding { .. }) = res {
+            if let CelValue::Err(err) = res {
                 return Err(err);
             }
         }
